@@ -320,12 +320,32 @@ def wif_all(seed, tier):
                      "(secret, flag, mainnet/testnet)" % k, budget_s=60 if tier == "quick" else 600)
 
 
+def category_job(names):
+    """every accept / reject category contract gets a fixed number of generated inputs (independent of the time-sharing
+    of the generic fuzz job, which has ~100 contracts to serve)"""
+    def run(seed, tier):
+        import itertools as it
+        n = 120 if tier == "quick" else 3000
+
+        def cases():
+            for nm in names:
+                c = REG.contracts[nm]
+                rng = random.Random(seed * 7919 + 11 + sum(map(ord, nm)))
+                for inputs in it.islice(c.gen(rng, tier), n):
+                    yield nm, inputs
+        return run_cases(cases(), "%d generated inputs for each of the %d accept/reject category contracts (first the published invalid/valid vectors of that category, "
+                         "then crafted strings whose FIRST broken rule is that category)" % (n, len(names)), budget_s=100 if tier == "quick" else 900)
+    return run
+
+
+CATEGORY_CONTRACTS = [n for n in CONTRACTS if ("#rejects-" in n or "#accepts" in n) and REG.contracts[n].gen is not None]
 TABLES = [("bech32_two_errors", bech32_two_errors)]
 BOUNDED = [("rt-contracts", fuzz_job(CONTRACTS)),
            ("b58check-roundtrip-all-lengths", b58_roundtrip_all),
            ("b58check-single-substitutions", b58_substitutions),
            ("segwit-roundtrip-all-versions-lengths", segwit_roundtrip_all),
            ("segwit-substitutions-direct", segwit_substitutions),
+           ("accept-reject-categories", category_job(CATEGORY_CONTRACTS)),
            ("address-maps", address_maps),
            ("wif", wif_all)]
 TRUSTED_BASE = ["pyvc symbolic executor (A-ENGINE)", "z3 5.1 (bit-vector mode for polymod/regrouping)",
